@@ -120,7 +120,10 @@ class Capture:
 
         def wrapped(*a, **k):
             r = self.orig(*a, **k)
-            self.calls.append((a, r))
+            # snapshot: the library mutates some of these arrays in place afterwards (indefinite_orthogonalize
+            # subtracts projections from the rows of the kernel basis it was given)
+            snap = lambda x: tuple(snap(y) for y in x) if isinstance(x, tuple) else (np.array(x, copy=True) if isinstance(x, np.ndarray) else x)
+            self.calls.append((snap(tuple(a)), snap(r)))
             return r
         setattr(self.mod, self.name, wrapped)
         return self
@@ -153,21 +156,27 @@ def run_fi(inp):
     B = Q.decf(inp["B"])
     n = B.shape[0]
     rows = np.array([Q.decf(r) for r in inp["rows"]]).reshape(tuple(inp["shape"]) + (inp["k"], n))
-    with Capture(core, "kernel") as cap:
+    with Capture(core, "kernel") as cap, Capture(np.linalg, "svd") as scap:
         out = utils.find_isometry(B, rows.copy(), inp["force_oriented"])
     (args, ker), = cap.calls
+    (_, (su, ss, svh)), = scap.calls
     ker = np.asarray(ker, dtype=float).swapaxes(-1, -2)      # rows
     return {"shape": list(out.shape), "out": L.units(out, 2).tolist(),
             "ker": [L.fenc(k) for k in L.units(ker, 2)], "kshape": list(ker.shape),
             "kin": [L.fenc(a) for a in L.units(np.asarray(args[0], dtype=float), 2)],
-            "dets": np.linalg.det(L.units(out, 2)).tolist()}
+            "dets": np.linalg.det(L.units(out, 2)).tolist(),
+            "u": [L.fenc(x) for x in L.units(su, 2)], "s": [L.fenc(x) for x in L.units(ss, 1)], "vh": [L.fenc(x) for x in L.units(svh, 2)]}
 
 
 def lean_fi(inp, obs):
     if "exc" in obs:
         return []
     ops = []
-    for r, k, kin, o in zip(inp["rows"], obs["ker"], obs["kin"], obs["out"]):
+    n = sum(inp["sig"])
+    for r, k, kin, o, su, ss, svh in zip(inp["rows"], obs["ker"], obs["kin"], obs["out"], obs["u"], obs["s"], obs["vh"]):
+        # the SVD contract assumed by findIsometry_isIso_svd, on the call find_isometry actually made
+        ops.append({"op": "c18.kernel_residual", "A": kin, "n": n, "N": k, "u": su, "s": ss, "vh": svh})
+        ops.append({"op": "c18.svd_kernel", "m": inp["k"], "s": ss, "tol": Q.qs(1e-8), "vh": svh})
         ops.append({"op": "c18.find_isometry", "form": inp["B"], "partial": r, "ker": k})
         ops.append({"op": "c18.gram", "form": inp["B"], "rows": L.fenc(np.array(o))})
         # kernel contract: the captured kernel rows are annihilated by (orth_partial @ form), i.e. F-orthogonal to partial
@@ -185,7 +194,15 @@ def judge_fi(inp, obs, lr):
     if obs["kshape"] != inp["shape"] + [n - inp["k"], n]:
         return {"expected": "kernel basis with n-k rows", "observed": obs["kshape"], "tags": dict(tags, kernel_dim=True), "property_failure": True}
     for u in range(len(inp["rows"])):
-        fi, gram, kc = lr[3 * u:3 * u + 3]
+        kr, sel, fi, gram, kc = lr[5 * u:5 * u + 5]
+        for res in (kr, sel):
+            if "err" in res:
+                return {"expected": "model answer", "observed": res, "tags": dict(tags, driver_err=res["err"])}
+        rr = {k_: (float(F(v)) if isinstance(v, str) else v) for k_, v in kr["ok"].items()}
+        if max(rr["svd_recon"], rr["svd_orth"]) > 1e-9 * 40 or not rr["svd_sorted"] or rr["svd_len"] != min(inp["k"], n):
+            return {"expected": "svd contract on orth_partial @ form", "observed": rr, "tags": dict(tags, lapack_contract=True)}
+        if sel["ok"] != obs["ker"][u]:
+            return {"expected": {"svdKernelRows": sel["ok"]}, "observed": obs["ker"][u], "tags": dict(tags, selection=True)}
         for res in (fi, gram, kc):
             if "err" in res:
                 if res is fi and res["err"] == "DivZero":
@@ -408,8 +425,9 @@ def judge_kernel(inp, obs, lr):
             if "err" in res:
                 return {"expected": "model answer", "observed": res, "tags": dict(tags, driver_err=res["err"])}
         r = {k: (float(F(v)) if isinstance(v, str) else v) for k, v in rr["ok"].items()}
-        if max(r["svd_recon"], r["svd_orth"]) > 1e-9 * 40:
-            return {"expected": "svd contract A = uΣvh, vh vhᵀ = 1", "observed": r, "tags": dict(tags, lapack_contract=True)}
+        if max(r["svd_recon"], r["svd_orth"]) > 1e-9 * 40 or not r["svd_sorted"] or r["svd_len"] != min(inp["m"], inp["n"]):
+            return {"expected": "svd contract A = uΣvh, u uᵀ = vh vhᵀ = 1, s ≥ 0 descending, len(s) = min(m,n)", "observed": r,
+                    "tags": dict(tags, lapack_contract=True)}
         if sel["ok"] != obs["N"][u]:
             return {"expected": {"selected rows of vh": sel["ok"]}, "observed": obs["N"][u], "tags": dict(tags, selection=True)}
         if max(r["ann"], r["orth"]) > 1e-9 * 40 or r["count"] != kd:
@@ -550,10 +568,11 @@ def judge_arcs(inp, obs, lr):
 # ------------------------------------------------------------------------------------------------
 # S3: the contracts themselves on random well-conditioned float inputs
 # ------------------------------------------------------------------------------------------------
-def fform(rng, p, q):
+def fform(rng, p, q, lo=0.3):
     n = p + q
     Qm, _ = np.linalg.qr(np.array([[rng.gauss(0, 1) for _ in range(n)] for _ in range(n)]))
-    d = [rng.uniform(0.3, 3.0) for _ in range(p)] + [-rng.uniform(0.3, 3.0) for _ in range(q)]
+    mag = lambda: math.exp(rng.uniform(math.log(lo), math.log(3.0)))
+    d = [mag() for _ in range(p)] + [-mag() for _ in range(q)]
     rng.shuffle(d)
     return Qm.T @ np.diag(d) @ Qm, d
 
@@ -587,18 +606,22 @@ def gen_gso(rng, n):
         if not ok:
             continue
         made += 1
-        yield {"sig": [p, q], "B": B.tolist(), "k": k, "shape": shape, "rows": rows.tolist(), "fn": rng.choice(["ortho", "find", "find"]),
-               "force_oriented": rng.random() < 0.5}
+        fn = rng.choice(["ortho", "find", "find"])
+        yield {"sig": [p, q], "B": B.tolist(), "k": k, "shape": shape, "rows": rows.tolist(), "fn": fn,
+               "force_oriented": rng.random() < 0.5, "oned": k == 1 and not shape and rng.random() < 0.6}
 
 
 def run_gso(inp):
     B = np.array(inp["B"])
     n = B.shape[0]
     rows = np.array(inp["rows"]).reshape(tuple(inp["shape"]) + (inp["k"], n))
+    arg = rows[0].copy() if inp.get("oned") else rows.copy()      # a single vector may be passed as a 1-d array
     if inp["fn"] == "ortho":
-        out = utils.indefinite_orthogonalize(B, rows.copy())
+        out = utils.indefinite_orthogonalize(B, arg)
+        if inp.get("oned"):
+            out = out[None, :]
     else:
-        out = utils.find_isometry(B, rows.copy(), inp["force_oriented"])
+        out = utils.find_isometry(B, arg, inp["force_oriented"])
     U = L.units(out, 2)
     R = L.units(rows, 2)
     G = U @ B @ U.swapaxes(-1, -2)
@@ -643,7 +666,7 @@ def gen_diago(rng, n):
         forms, sigs = [], []
         for _ in range(cnt(shape)):
             q = rng.randint(0, nn)
-            B, d = fform(rng, nn - q, q)
+            B, d = fform(rng, nn - q, q, lo=3e-3)      # eigenvalues bounded away from 0 with cond ≤ 1e3
             forms.append(B.tolist())
             sigs.append([1 if x > 0 else -1 for x in d])
         yield {"n": nn, "shape": shape, "forms": forms, "sigs": sigs, "mode": rng.choice(["signed", "minkowski", "minkowski"]),
@@ -695,18 +718,28 @@ def gen_kero(rng, n):
             else:
                 A = np.zeros((m, nn))
             As.append(A.tolist())
-        yield {"m": m, "n": nn, "rank": rk, "shape": shape, "A": As, "via": rng.choice(["kernel", "kernel", "oc_form", "oc_none"])}
+        via = rng.choice(["kernel", "kernel", "oc_form", "oc_none", "oc_real_none", "oc_real_form"])
+        inp = {"m": m, "n": nn, "rank": rk, "shape": shape, "A": As, "via": via}
+        if via.startswith("oc_real"):
+            # a genuine (positive definite, so that normalisation is always possible) form: complements are form-orthogonal
+            G = np.array([[rng.gauss(0, 1) for _ in range(nn)] for _ in range(nn)])
+            inp["form"] = (G @ G.T + 0.5 * np.eye(nn)).tolist()
+        yield inp
 
 
 def run_kero(inp):
     A = np.array(inp["A"]).reshape(tuple(inp["shape"]) + (inp["m"], inp["n"]))
+    Fm = np.array(inp["form"]) if "form" in inp else np.eye(inp["n"])
     if inp["via"] == "kernel":
         rows = np.asarray(utils.kernel(A.copy())).swapaxes(-1, -2)
+    elif "form" in inp:
+        rows = np.asarray(utils.orthogonal_complement(A.copy(), Fm, normalize="form" if inp["via"] == "oc_real_form" else None))
     else:
         rows = np.asarray(utils.orthogonal_complement(A.copy(), normalize="form" if inp["via"] == "oc_form" else None))
     U = L.units(rows, 2)
-    ann = float(np.max(np.abs(L.units(A, 2) @ U.swapaxes(-1, -2)))) if U.size else 0.0
-    orth = float(np.max(np.abs(U @ U.swapaxes(-1, -2) - np.eye(U.shape[-2])))) if U.size else 0.0
+    ann = float(np.max(np.abs(L.units(A, 2) @ Fm @ U.swapaxes(-1, -2)))) if U.size else 0.0      # form-orthogonal to the given vectors
+    Gm = U @ (Fm if inp["via"] == "oc_real_form" else np.eye(inp["n"])) @ U.swapaxes(-1, -2)
+    orth = float(np.max(np.abs(Gm - np.eye(U.shape[-2])))) if U.size else 0.0
     return {"shape": list(rows.shape), "ann": ann, "orth": orth}
 
 
@@ -784,12 +817,130 @@ def judge_arco(inp, obs, lr):
     return None
 
 
+# ------------------------------------------------------------------------------------------------
+# circle_angles: the angle as a (cos, sin) pair
+# ------------------------------------------------------------------------------------------------
+def gen_cang(rng, n):
+    for _ in range(n):
+        shape = rng.choice(SHAPES)
+        k = rng.randint(1, 3)
+        centers, pts = [], []
+        for _ in range(cnt(shape)):
+            c = [Q.rq(rng, 9, 4), Q.rq(rng, 9, 4)]
+            ps = []
+            for _ in range(k):
+                co, si = Q.rrot(rng)
+                if rng.random() < 0.2:
+                    co, si = rng.choice([(F(1), F(0)), (F(-1), F(0)), (F(0), F(1)), (F(0), F(-1))])
+                rho = F(rng.randint(1, 12), rng.randint(1, 5))
+                ps.append([c[0] + rho * co, c[1] + rho * si])
+            centers.append(L.encV(c))
+            pts.append(L.encM(ps))
+        yield {"shape": shape, "k": k, "centers": centers, "pts": pts}
+
+
+def run_cang(inp):
+    c = np.array([Q.decf(x) for x in inp["centers"]]).reshape(tuple(inp["shape"]) + (2,))
+    P = np.array([Q.decf(x) for x in inp["pts"]]).reshape(tuple(inp["shape"]) + (inp["k"], 2))
+    th = np.asarray(utils.circle_angles(c, P), dtype=float)
+    return {"shape": list(th.shape), "theta": L.units(th, 1).tolist()}
+
+
+def lean_cang(inp, obs):
+    return [{"op": "c18.circle_angle", "center": c, "p": p} for c, ps in zip(inp["centers"], inp["pts"]) for p in ps]
+
+
+def judge_cang(inp, obs, lr):
+    tags = {"fn": "circle_angles", "composite": bool(inp["shape"])}
+    if "exc" in obs:
+        return {"expected": "angles", "observed": obs, "tags": dict(tags, exc=obs["exc"]), "property_failure": True}
+    if obs["shape"] != inp["shape"] + [inp["k"]]:
+        return {"expected": inp["shape"] + [inp["k"]], "observed": obs["shape"], "tags": dict(tags, shape=True), "property_failure": True}
+    flat = [t for row in obs["theta"] for t in row]
+    for res, t in zip(lr, flat):
+        if "err" in res:
+            return {"expected": "model answer", "observed": res, "tags": dict(tags, driver_err=res["err"])}
+        c, s_ = (float(F(x)) for x in res["ok"])
+        if not (-PI - 1e-12 <= t <= PI + 1e-12 and abs(math.cos(t) - c) <= 1e-9 and abs(math.sin(t) - s_) <= 1e-9):
+            return {"expected": {"cos": c, "sin": s_, "range": "[-π, π]"}, "observed": {"theta": t, "cos": math.cos(t), "sin": math.sin(t)},
+                    "tags": tags, "property_failure": not (-PI - 1e-12 <= t <= PI + 1e-12)}
+    return None
+
+
+# ---- numerical.svd_kernel options: assume_full_rank, matching_rank=False (+ with_dimensions / with_loc) ----------------
+def gen_svdopt(rng, n):
+    for _ in range(n):
+        m, nn = rng.randint(1, 4), rng.randint(1, 5)
+        b = rng.randint(1, 4)
+        mode = rng.choice(["nomatch", "nomatch", "full"])
+        As, ranks = [], []
+        for _ in range(b):
+            rk = min(m, nn) if mode == "full" else rng.randint(0, min(m, nn))
+            if rk:
+                ql, _ = np.linalg.qr(np.array([[rng.gauss(0, 1) for _ in range(rk)] for _ in range(m)]).reshape(m, rk))
+                qr_, _ = np.linalg.qr(np.array([[rng.gauss(0, 1) for _ in range(rk)] for _ in range(nn)]).reshape(nn, rk))
+                A = ql @ np.diag([rng.uniform(0.5, 3) for _ in range(rk)]) @ qr_.T
+            else:
+                A = np.zeros((m, nn))
+            As.append(A.tolist())
+            ranks.append(rk)
+        yield {"m": m, "n": nn, "A": As, "ranks": ranks, "mode": mode, "with_dimensions": rng.random() < 0.5, "with_loc": rng.random() < 0.5}
+
+
+def run_svdopt(inp):
+    A = np.array(inp["A"]).reshape(len(inp["A"]), inp["m"], inp["n"])
+    if inp["mode"] == "full":
+        N = numerical.svd_kernel(A.copy(), assume_full_rank=True)
+        groups = [(inp["n"] - min(inp["m"], inp["n"]), N, np.ones(len(A), dtype=bool))]
+    else:
+        res = numerical.svd_kernel(A.copy(), matching_rank=False, with_dimensions=inp["with_dimensions"], with_loc=inp["with_loc"])
+        kd = np.array([inp["n"] - r for r in inp["ranks"]])
+        dims_true = sorted(set(kd.tolist()))
+        if inp["with_dimensions"] and inp["with_loc"]:
+            dims, bases, locs = res
+        elif inp["with_dimensions"]:
+            dims, bases = res
+            locs = [kd == d for d in dims]
+        elif inp["with_loc"]:
+            bases, locs = res
+            dims = dims_true
+        else:
+            bases, dims, locs = res, dims_true, [kd == d for d in dims_true]
+        if list(np.asarray(dims).tolist()) != dims_true or len(bases) != len(dims_true):
+            return {"dims": np.asarray(dims).tolist(), "dims_true": dims_true, "nb": len(bases)}
+        groups = [(d, Bm, np.asarray(l)) for d, Bm, l in zip(dims_true, bases, locs)]
+    worst_ann = worst_orth = 0.0
+    shapes = []
+    for d, Bm, loc in groups:
+        Bm = np.asarray(Bm)
+        shapes.append([list(Bm.shape), [int(loc.sum()), inp["n"], int(d)]])
+        if Bm.size and list(Bm.shape) == [int(loc.sum()), inp["n"], int(d)]:
+            worst_ann = max(worst_ann, float(np.max(np.abs(A[loc] @ Bm))))
+            worst_orth = max(worst_orth, float(np.max(np.abs(Bm.swapaxes(-1, -2) @ Bm - np.eye(int(d))))))
+    return {"shapes": shapes, "ann": worst_ann, "orth": worst_orth}
+
+
+def judge_svdopt(inp, obs, lr):
+    tags = {"fn": "svd_kernel", "mode": inp["mode"], "trivial_kernel": any(r == inp["n"] for r in inp["ranks"]),
+            "mixed_ranks": len(set(inp["ranks"])) > 1}
+    if "exc" in obs:
+        return {"expected": "kernel bases", "observed": obs, "tags": dict(tags, exc=obs["exc"])}
+    if "dims" in obs:
+        return {"expected": {"kernel dimensions": obs["dims_true"]}, "observed": obs, "tags": dict(tags, dimension=True)}
+    for got, want in obs["shapes"]:
+        if got != want:
+            return {"expected": {"shape": want}, "observed": {"shape": got}, "tags": dict(tags, dimension=True)}
+    if not (obs["ann"] <= 1e-8 and obs["orth"] <= 1e-8):
+        return {"expected": "annihilated and orthonormal (1e-8)", "observed": obs, "tags": dict(tags, residual=True)}
+    return None
+
+
 CLAUSES = [
     Clause("gs_corr", "corr", gen_gs, run_gs, judge_gs, lean=lean_gs, site="utils.indefinite_orthogonalize",
-           budget={"quick": 240, "thorough": 4000},
+           budget={"quick": 160, "thorough": 4000},
            what="indefinite_orthogonalize(QᵀDQ, rational rows) by value vs the Lean Gram–Schmidt over ℚ (unnormalised rows and square-norms exact, normalised in float); signatures p+q ≤ 6, batch shapes, 1-d input"),
     Clause("find_isometry_corr", "corr", gen_fi, run_fi, judge_fi, lean=lean_fi, site="utils.find_isometry",
-           budget={"quick": 200, "thorough": 3000},
+           budget={"quick": 110, "thorough": 3000},
            what="find_isometry with the kernel basis captured from the implementation: Lean runs gs(partial) ++ gs(ker) exactly on it (by value), evaluates the kernel contract and M F Mᵀ − diag(±1) exactly; force_oriented"),
     Clause("diag_corr", "corr", gen_diag, run_diag, judge_diag, lean=lean_diag, site="utils.diagonalize_form",
            budget={"quick": 240, "thorough": 4000},
@@ -806,6 +957,9 @@ CLAUSES = [
     Clause("arcs_corr", "corr", gen_arcs, run_arcs, judge_arcs, lean=lean_arcs, site="utils.short_arc / right_to_left / arc_include",
            budget={"quick": 300, "thorough": 5000},
            what="angle pairs on the stated ranges incl. unit shape and batches vs the Lean model over ℚ (π = the double np.pi)"),
+    Clause("circle_angles_corr", "corr", gen_cang, run_cang, judge_cang, lean=lean_cang, site="utils.circle_angles",
+           budget={"quick": 80, "thorough": 2000},
+           what="rational centres and points at rational distance (incl. the four axis directions), batches: (cos θ, sin θ) of the returned angle vs the exact unit vector of the Lean model; θ ∈ [−π, π]"),
     Clause("gs_oracle", "oracle", gen_gso, run_gso, judge_gso, site="utils.indefinite_orthogonalize / find_isometry",
            budget={"quick": 500, "thorough": 8000},
            what="float forms of every signature p+q ≤ 6, well-conditioned rows, batches: orthogonality, norms ±1, flag of spans, signature, det > 0 on request"),
@@ -815,6 +969,9 @@ CLAUSES = [
     Clause("kernel_oracle", "oracle", gen_kero, run_kero, judge_kero, site="utils.kernel / orthogonal_complement",
            budget={"quick": 500, "thorough": 8000},
            what="float matrices of prescribed rank: annihilated, orthonormal, n − rank columns; orthogonal_complement with and without normalisation"),
+    Clause("svd_options_oracle", "oracle", gen_svdopt, run_svdopt, judge_svdopt, site="numerical.svd_kernel",
+           budget={"quick": 200, "thorough": 5000},
+           what="svd_kernel(assume_full_rank=True) and svd_kernel(matching_rank=False, with_dimensions, with_loc) on batches of mixed rank incl. trivial kernels: per-rank bases annihilated, orthonormal, n − rank columns"),
     Clause("sphere_oracle", "oracle", gen_spho, run_spho, judge_spho, site="utils.sphere_through / circle_through",
            budget={"quick": 400, "thorough": 6000},
            what="float points in general position: every point at distance radius from the centre"),
